@@ -150,23 +150,49 @@ def run(rep, tier):
             oks, errs = _ok_err(f, e)
             okb |= set(oks)
         muts = effect_sites(prog, f, idx)
-        # the documented exception: an undecodable stored document is swept by id (purge) without a pre-image
+        # no exception for the id sweep of an undecodable stored document: an image-less intent is recordable,
+        # and without it a crash after the DELETE leaves the id in the checkpointed bitmap for good
         purge = [e for e in muts if re.search(r"purge_dead_ids_from_indexes$", e.name)]
-        value_keyed = [e for e in muts if e not in purge]
-        ok = bool(okb) and bool(value_keyed) and valueflow.must_pass_ps(f, okb | {e.block for e in purge}, [e.block for e in value_keyed])
+        ok = bool(okb) and bool(muts) and valueflow.must_pass_ps(f, okb, [e.block for e in muts])
         rep.ob("R01.2", "intent-before-index|%s" % name, ok,
-               "every value-keyed index mutation (%d sites incl. forward/rollback closures) must follow a successful record_mutation_intent" % len(value_keyed),
-               (value_keyed[0].where() if value_keyed else f.file))
+               "every index mutation (%d sites incl. forward/rollback closures and the id sweep) must follow a successful record_mutation_intent" % len(muts),
+               (muts[0].where() if muts else f.file))
         docw = [e for e in f.calls_named(r"^anda_db::storage::Storage::(put|put_bytes|delete|create)$") if "fn:doc_path" in path_class(prog, f, e)]
-        through = okb | {e.block for e in purge}
-        ok = bool(docw) and valueflow.must_pass_ps(f, through, [e.block for e in docw])
+        ok = bool(docw) and valueflow.must_pass_ps(f, okb, [e.block for e in docw])
         rep.ob("R01.2", "intent-before-docwrite|%s" % name, ok,
-               "the document write/delete must follow a successful record_mutation_intent (or the id sweep of an undecodable document)",
+               "the document write/delete must follow a successful record_mutation_intent on every path (the id-sweep path included)",
                (docw[0].where() if docw else f.file))
-        # purge only on the undecodable path: never together with an intent for the same call
-        if purge:
-            ok = not valueflow.reaches_after_mark(f, okb, [e.block for e in purge])
-            rep.ob("R01.2", "purge-exclusive|%s" % name, ok, "the pre-image-less id sweep must not be reachable once an intent was recorded", purge[0].where())
+
+    # replay side: an intent that carries no decodable image names no posting, so its id must reach the id sweep
+    f = body("reconcile_mutation_intents")
+    rep.saw(f, len(f.events))
+    sweeps = f.calls_named(r"Collection::purge_dead_ids_from_indexes$")
+    origin = {id(o[1]) for e in sweeps if len(e.args) > 1 for o in f.slice_back_op(e.args[1]) if o[0] == "call"}
+    ins = [e for e in f.calls_named(r"BTreeSet::<T, A>::insert$")
+           if e.args and any(o[0] == "call" and id(o[1]) in origin for o in f.slice_back_op(e.args[0]))]
+    decode = {e.block for e in f.calls_named(r"Document::try_from_doc$")}
+    if not sweeps or not origin or not decode:
+        raise CheckerFault("anchor missing: reconcile_mutation_intents id sweep / image decode")
+    free = f.reachable_from([0], avoid=decode)
+
+    def _may_be_none(g, o):
+        pl = core.op_place(o)
+        return pl is not None and any(k == "agg" and v == "None" for (k, *rest) in g.value_origins(pl.l) for v in rest[1:2])
+    imageless = []
+    for g in prog.fns.values():
+        if g.crate != "anda_db":
+            continue
+        for e in g.calls_named(r"Collection::record_mutation_intent$"):
+            if len(e.args) >= 4 and _may_be_none(g, e.args[2]) and _may_be_none(g, e.args[3]):
+                imageless.append(e)
+    rep.note("imageless_intent_sites", [e.where() for e in imageless])
+    if not imageless:
+        rep.ob("R01.2", "imageless-intent-swept|none-recorded", True, "no call records an intent without an image: nothing to sweep on replay", f.file)
+    else:
+      rep.ob("R01.2", "imageless-intent-swept|reconcile_mutation_intents", any(e.block in free for e in ins),
+           "an intent without a (decodable) image must put its id into the id-sweep set: an insertion into the set handed to "
+           "purge_dead_ids_from_indexes must be reachable without passing through an image decode (found %d insertions, all behind a decode)" % len(ins),
+           sweeps[0].where())
 
     # ------------------------------------------------------------------ R01.3 allocation watermark
     rep.rule("R01.3", "add_impl: watermark before Storage::create(doc); ensure_allocation_watermark: durable put Ok edge dominates the in-memory raise", floor=3)
